@@ -87,9 +87,10 @@ def bdecode_prefix(b):
 
 
 def textify(v):
-    """bytes -> str recursively (utf-8, replacement on error)."""
+    """bytes -> str recursively (utf-8; undecodable bytes are kept as surrogate escapes so that
+    `.encode("utf-8", "surrogateescape")` gives back the exact payload bytes)."""
     if isinstance(v, bytes):
-        return v.decode("utf-8", "replace")
+        return v.decode("utf-8", "surrogateescape")
     if isinstance(v, list):
         return [textify(x) for x in v]
     if isinstance(v, dict):
@@ -346,9 +347,26 @@ def hx(s):
     return s.encode("utf-8").hex() or "00"[:0]
 
 
+def _b(s):
+    return s.encode("utf-8", "surrogateescape")
+
+
 def _h(s):
-    h = s.encode("utf-8").hex()
+    h = _b(s).hex()
     return h if h else "-"
+
+
+def abbreviate(m, limit=600):
+    """A received message with long payloads replaced by length + sha1 + head/tail (replay files)."""
+    import hashlib
+    out = {}
+    for k, v in m.items():
+        if isinstance(v, str) and len(v) > limit:
+            b = _b(v)
+            out[k] = "<%d bytes sha1=%s head=%r tail=%r>" % (len(b), hashlib.sha1(b).hexdigest()[:12], v[:40], v[-40:])
+        else:
+            out[k] = v
+    return out
 
 
 class Scenario:
@@ -361,6 +379,7 @@ class Scenario:
         self.expect = {}
         self.kinds = []     # per message index: (kind, session, prog-sexp or None)
         self.n = 0
+        self.no_model = False   # trace too large / too many print steps for the model replay
 
     def _id(self):
         i = self.n
@@ -444,6 +463,9 @@ def trace_sexp(sc, res):
             cl.append("(%s %d)" % (k, seen))
     sv = []
     for m in res["received"]:
+        for key in ("out", "err", "value"):
+            if isinstance(m.get(key), str) and any(0xDC80 <= ord(ch) <= 0xDCFF for ch in m[key]):
+                return None     # payload split inside a UTF-8 character: the byte oracle judges it
         rid = m.get("id")
         if not (isinstance(rid, str) and rid.isdigit()):
             return None
@@ -458,6 +480,17 @@ def trace_sexp(sc, res):
         else:
             return None
     return "(trace (client %s) (server %s))" % (" ".join(cl), " ".join(sv))
+
+
+def _diff(name, got, want, allgot, before, key):
+    """Byte-level description of a stream mismatch (lengths, chunk sizes, first differing offset)."""
+    g, w = _b(got), _b(want)
+    n = min(len(g), len(w))
+    off = next((i for i in range(n) if g[i] != w[i]), n)
+    sizes = [len(_b(m[key])) for m in before if key in m]
+    return ("%s before `done` is %d bytes in %d `%s` messages %s, expected %d bytes; first difference at byte %d "
+            "(got %r, expected %r); %d bytes in all messages with this id" % (
+                name, len(g), len(sizes), key, sizes[:12], len(w), off, g[off:off + 24], w[off:off + 24], len(_b(allgot))))
 
 
 def oracle(sc, res):
@@ -488,10 +521,9 @@ def oracle(sc, res):
         out = "".join(m["out"] for m in before if "out" in m)
         allout = "".join(m["out"] for m in ms if "out" in m)
         if "out" in exp:
-            if out != exp["out"]:
-                why = "out-late" if allout == exp["out"] else "out-wrong"
-                bad.append((why, "request %s: stdout before `done` is %r, expected %r (all: %r)" % (
-                    rid, out[:200], exp["out"][:200], allout[:200])))
+            if _b(out) != _b(exp["out"]):
+                why = "out-late" if _b(allout) == _b(exp["out"]) else "out-wrong"
+                bad.append((why, "request %s: %s" % (rid, _diff("stdout", out, exp["out"], allout, before, "out"))))
         if "out_repeat" in exp:
             unit = exp["out_repeat"]
             if out != unit * (len(out) // len(unit)) or (allout != out):
@@ -501,6 +533,11 @@ def oracle(sc, res):
             err = "".join(m["err"] for m in before if "err" in m)
             if not err.startswith(exp["err"]):
                 bad.append(("err-wrong", "request %s: stderr %r, expected prefix %r" % (rid, err[:200], exp["err"][:200])))
+        if "err_exact" in exp:
+            err = "".join(m["err"] for m in before if "err" in m)
+            allerr = "".join(m["err"] for m in ms if "err" in m)
+            if _b(err) != _b(exp["err_exact"]):
+                bad.append(("err-wrong", "request %s: %s" % (rid, _diff("stderr", err, exp["err_exact"], allerr, before, "err"))))
         st = set(ms[dones[0]].get("status") or [])
         if "status" in exp and st != exp["status"]:
             key = "status"
@@ -577,6 +614,58 @@ def make_scenario(kind, rng, k100):
                    out=v2 + "\n", status=DONE, value=q2)
         sc.wait(r1, 15)
         sc.wait(r2, 15)
+    elif kind == "big_output":
+        # large outputs left to the final drain (or to few flusher passes): byte-exact completeness
+        def big_eval(n):
+            fn = rng.choice(["print", "println", "print", "eprint", "eprintln"])
+            unit = rng.choice(["0123456789abcdef", "ab", "\u00e9", "\u20ac", "\U0001F600", "a\u20ac\U0001F600\u00e9z"])
+            prefix = "q" * rng.randint(0, 3)
+            ub, pb = len(unit.encode()), len(prefix)
+            q = max(1, (n - pb) // ub)
+            rem = max(0, n - pb - q * ub)
+            text = prefix + unit * q + "x" * rem
+            code = ['let p = "%s"' % unit, 'let acc = "%s"' % prefix]
+            bits = bin(q)[2:][::-1]
+            for i, bit in enumerate(bits):
+                if bit == "1":
+                    code.append("acc = acc ^ p")
+                if i + 1 < len(bits):
+                    code.append("p = p ^ p")
+            if rem:
+                code.append('acc = acc ^ "%s"' % ("x" * rem))
+            code.append("%s(acc)" % fn)
+            total = text + ("\n" if fn.endswith("ln") else "")
+            stream = "err" if fn.startswith("e") else "out"
+            exp = dict(status=DONE, value="Unit")
+            exp["out"] = total if stream == "out" else ""
+            exp["err_exact"] = total if stream == "err" else ""
+            return sc.ev(S1, " ".join(code), [("nop",), (stream, total)], **exp)
+        sizes_a = [4096, 65535, 65536, 65537, 66560, 131071, 131073]
+        sizes_b = [204800, 262145, 1048576]
+        mode = rng.random()
+        if mode < 0.25:
+            # a fast print loop that ends with a burst in the buffer (too many steps for the model)
+            line = tok() + tok() + tok()
+            cnt = rng.choice([6000, 12000, 20000])
+            fn = rng.choice(["println", "println", "eprintln"])
+            total = (line + "\n") * cnt
+            exp = dict(status=DONE)
+            exp["out"] = total if fn == "println" else ""
+            exp["err_exact"] = total if fn == "eprintln" else ""
+            r = sc.ev(S1, 'let i = 0 while i < %d { %s("%s") i += 1 }' % (cnt, fn, line), [], **exp)
+            sc.no_model = True
+            sc.wait(r, 30)
+        else:
+            r = big_eval(rng.choice(sizes_a) + rng.choice([0, 0, -1, 1]))
+            sc.wait(r, 30)
+        nb = rng.choice(sizes_b)
+        if nb > 300000:
+            sc.no_model = True
+        r = big_eval(nb + rng.choice([0, 1, -1]))
+        sc.wait(r, 30)
+        # a small control after the big ones: nothing stale leaks into the next request
+        r = sc.ev(S1, 'println("end")', [("out", "end\n")], out="end\n", status=DONE, value="Unit")
+        sc.wait(r)
     elif kind == "closed_session":
         k = sc.op("close", "close", session=S1, expect=dict(status={"done", "session-closed"}))
         sc.wait(k)
@@ -733,7 +822,7 @@ def run_configs(ctx, prop, configs, n, extra_oracle=None):
                 r2 = attempt(ix, "r%d" % j, par=1, tfactor=4.0, scenarios=[sc])
                 if not isinstance(r2, Exception):
                     r2[0][1]["first_attempt"] = dict(timeouts=r["timeouts"], error=r["error"],
-                                                     received=r["received"][-6:])
+                                                     received=[abbreviate(m) for m in r["received"][-6:]])
                     if r2[0][1]["timeouts"] or r2[0][1]["error"]:
                         retried["scripts_still_failing"] += 1
                     out.append(r2[0])
@@ -760,7 +849,7 @@ def run_configs(ctx, prop, configs, n, extra_oracle=None):
             intr = any("interrupted" in (m.get("status") or []) for m in res["received"])
             stats["multi_chunk"] += multi
             stats["interrupted"] += intr
-            replay = dict(schedule=kind, delays=dl, steps=sc.steps, received=res["received"],
+            replay = dict(schedule=kind, delays=dl, steps=sc.steps, received=[abbreviate(m) for m in res["received"]],
                           recv_times=[round(x, 3) for x in res.get("t", [])],
                           sent_seen=[s for _, s in res["sent"]], timeouts=res["timeouts"], io_error=res["error"],
                           first_attempt=res.get("first_attempt"), server_stderr=res.get("stderr_tail"))
@@ -772,8 +861,16 @@ def run_configs(ctx, prop, configs, n, extra_oracle=None):
             for key, what in bad:
                 full = key if key.startswith(prop + "/") else "%s/%s/%s" % (prop, kind, key)
                 ctx.fail(full, "[%s, delays %s] %s" % (kind, dl, what), **replay)
-            ctx.case((kind, dl, [m for m in sc.steps if m[0] == "send"]), nontrivial=multi or intr or kind in ("two_sessions", "closed_session", "flusher_gap"))
-            ctx.sample(dict(schedule=kind, delays=dl, received=res["received"][:8]))
+            ctx.case((kind, dl, [m for m in sc.steps if m[0] == "send"]), nontrivial=multi or intr or kind in ("two_sessions", "closed_session", "flusher_gap", "big_output"))
+            ctx.sample(dict(schedule=kind, delays=dl, received=[abbreviate(m, 200) for m in res["received"][:8]]))
+            if kind == "big_output":
+                for m in res["received"]:
+                    for key in ("out", "err"):
+                        if key in m:
+                            stats["max_payload_bytes"] = max(stats.get("max_payload_bytes", 0), len(_b(m[key])))
+            if sc.no_model:
+                stats["oracle_only"] = stats.get("oracle_only", 0) + 1
+                continue
             sx = trace_sexp(sc, res)
             if sx is None:
                 stats["inexpressible"] += 1
